@@ -133,7 +133,8 @@ def run(ck):
         fp = it.new_object(P.cls(f"{SQ}.FileSeqCountProvider").qual, symbolic=True, root="self", path="self")
         env.heap[(fp.a[0], "_max_bit_width")] = w
         r = R.run_guarded(ck, "G-REFUSE", f"FileSeqCountProvider.{meth}", "call", lambda: call_method(it, env, fp, meth))
-        fnf = [x for x in it.raises if x["kind"] == "explicit" and x["exc"] == "FileNotFoundError" and x["func"].endswith(meth)]
+        # raised by the method itself or by a helper it calls
+        fnf = [x for x in it.raises if x["kind"] == "explicit" and x["exc"] == "FileNotFoundError" and not x["caught"]]
         ok = bool(fnf) and any("exists" in show(f) for f in fnf[0]["facts"])
         ck.verdict("G-REFUSE", f"FileSeqCountProvider.{meth}", "a missing file is reported with FileNotFoundError before anything is read", [] if ok else ["no FileNotFoundError under `not exists()`"],
                    "raise guarded by not file_name.exists()")
@@ -173,6 +174,28 @@ def run(ck):
         if [n for n in f.node.body if isinstance(n, ast.Return)]:
             probs.append("a return outside the with-block")
     ck.verdict("P-MUST", "FileSeqCountProvider.get_and_increment", "read count, seek(0), write successor + newline, return old count - in this order inside the with-block", probs, "straight-line block")
+    # ---------------------------------------------------------------- readers agree with the writer about what is stored
+    # get_and_increment overwrites the count in place (seek(0) + write) without truncating, so after a shorter count has
+    # replaced a longer one stale characters follow the first line: the stored count is the FIRST LINE only
+    gi = ast.unparse(P.func(f"{SQ}.FileSeqCountProvider.get_and_increment").node)
+    truncates = ".truncate(" in gi or "'w'" in gi or '"w"' in gi
+    for meth in ("current", "get_and_increment"):
+        fnode = P.func(f"{SQ}.FileSeqCountProvider.{meth}").node
+        calls = [n for n in ast.walk(fnode) if isinstance(n, ast.Call) and isinstance(n.func, ast.Attribute) and n.func.attr == "check_count"]
+        for c in calls:
+            arg = ast.unparse(c.args[0]) if c.args else ""
+            what = f"{meth} validates the stored count, i.e. the first line of the file"
+            first_line = (arg.endswith(".readline()") or arg.endswith(".readlines()[0]") or arg.endswith(".splitlines()[0]") or arg.startswith("next("))
+            whole = arg.endswith(".read()") or arg.endswith(".read_text()")
+            if first_line or (whole and truncates):
+                ck.proved("P-MUST", f"FileSeqCountProvider.{meth}", what, f"check_count({arg})")
+            elif whole:
+                ck.refuted("P-MUST", f"FileSeqCountProvider.{meth}", what, f"check_count({arg}) parses the whole file although the writer overwrites in place without truncating: "
+                           "after the rollover 127 -> 0 of a 7-bit counter the file holds '0\\n7\\n' and the valid stored count 0 is refused", witness={"file_content": "0\n7\n", "width": 7})
+            else:
+                ck.unknown("P-MUST", f"FileSeqCountProvider.{meth}", what, f"unrecognised way of reading the count: check_count({arg})")
+        if not calls:
+            ck.unknown("P-MUST", f"FileSeqCountProvider.{meth}", "the stored count is validated", "no check_count call")
     f = P.func(f"{SQ}.FileSeqCountProvider.create_new")
     s = ast.unparse(f.node)
     ok = "'w'" in s and ".write('0\\n')" in s
